@@ -49,6 +49,9 @@ checks = {
  "C17": ("model_checking", "explicit-state BFS over histories of writes to a declared struct instance through every write route, against a declaration model",
          "all histories of depth 2 (thorough 3) over ~590 operations: 8 field names x 13 value kinds x {hset, set with dot path, infix dot assignment, construction}, non-symbol keys, nested dot paths, writes through pointers, derefSet, msgmap, decoding hand-written JSON/msgpack texts, round trips, redeclaration; after every step the instance has only declared fields once each under symbol keys and every non-nil value has the declared kind under the definition in force at creation; failed writes leave the instance unchanged",
          "only the safety direction is judged plus the acceptance cases the property names; one instance under observation", "§3 C17"),
+ "C18": ("exploration", "small-scope exhaustive enumeration of package trees, member names, dot paths, aliases and read/write routes against a visibility model",
+         "a package tree of depth 3 (thorough 4) with values, functions, hashes (with nested hash) and nested packages under upper-case, lower-case and underscore names at every level; every member x every dot path {direct, alias of the top package, alias of each nested package on the way} x 4 read routes and 2 write routes; allowed iff the last hop is capitalised (hash fields: iff the hash is stored under a capitalised name), allowed -> the member's unique number / effective write, denied -> error and member unchanged; inside code keeps access",
+         "trusts the visibility model R7; lower-case fields of hashes are not judged", "§3 C18"),
 }
 all_ids = ["C%02d" % i for i in range(1, 21)]
 pending = {i: "check not built yet in this tree (see DESIGN.md §7 build order); will be claimed when its machinery lands" for i in all_ids if i not in checks}
